@@ -94,14 +94,114 @@ func runC18(p *an.Prog, r *an.Run, tier string) {
 	ua := methodArgs(updCall)
 	if len(ua) == 2 {
 		d := p.Derives(0, ua[1])
-		if d.CallTo(func(f *types.Func) bool { return f.Name() == "Peers" && an.RecvNamed(f) != nil && an.RecvNamed(f).Obj().Name() == "EthNode" }) == nil {
+		if d.CallTo(func(f *types.Func) bool {
+			return f.Name() == "Peers" && an.RecvNamed(f) != nil && an.RecvNamed(f).Obj().Name() == "EthNode"
+		}) == nil {
 			bad = append(bad, "the update does not report the node's current peers")
 		}
 		if d.CallTo(func(f *types.Func) bool { return f.Name() == "BlockNumber" }) == nil {
 			bad = append(bad, "the update does not report the node's block number")
 		}
 	}
-	r.Check(len(bad) == 0, "after-update", name, updCall.Pos(), "node mutators only past a successful pool update", "%s", strings.Join(bad, "; "))
+	// callers of UpdatePeers: when it fails, nothing that follows may touch the node either
+	mutates := func(c ssa.CallInstruction) string {
+		if isEthMutator(an.CallObj(c)) {
+			return an.ObjString(an.CallObj(c))
+		}
+		for _, cal := range p.CalleesAt(c) {
+			if !p.InRepo(cal) {
+				continue
+			}
+			if w, ok := p.ReachesCall(cal, func(cc ssa.CallInstruction) bool { return isEthMutator(an.CallObj(cc)) }); ok {
+				return an.FuncName(cal) + " -> " + an.ObjString(an.CallObj(w))
+			}
+		}
+		return ""
+	}
+	for _, site := range p.StaticSites(up) {
+		caller := site.Parent()
+		if p.IsTestFunc(caller) || !p.InRepo(caller) {
+			continue
+		}
+		u := an.ErrEdges(site)
+		var starts []*ssa.BasicBlock
+		for _, e := range u.Fail {
+			starts = append(starts, e.To)
+		}
+		if len(starts) == 0 {
+			continue
+		}
+		fr := an.ReachFrom(starts, nil)
+		for _, s0 := range starts {
+			fr[s0] = true
+		}
+		for _, c := range an.Calls(caller, false) {
+			if c == site || !fr[c.Block()] {
+				continue
+			}
+			// only what can follow the failure without passing the call again in a later iteration
+			if an.ReachAvoiding(caller, an.EdgeSet(u.Fail))[c.Block()] && !an.Dominates(site.(ssa.Instruction), c.(ssa.Instruction)) {
+				continue
+			}
+			if an.ReachAvoiding(caller, an.EdgeSet(u.Fail))[c.Block()] {
+				// reachable on the success side as well: decide by the failure-only region
+				onlyFail := true
+				for _, e := range u.Succ {
+					if an.ReachFrom([]*ssa.BasicBlock{e.To}, an.EdgeSet(u.Fail))[c.Block()] || e.To == c.Block() {
+						onlyFail = false
+					}
+				}
+				if !onlyFail {
+					continue
+				}
+			}
+			if w := mutates(c); w != "" {
+				bad = append(bad, an.FuncName(caller)+" calls "+w+" at "+p.Pos(c.Pos())+" after a failed UpdatePeers: a failed keep-alive must change nothing on the node")
+			}
+		}
+	}
+	// who may touch the node: only UpdatePeers, AddPeers and their helpers (anything else must be unreachable)
+	allowed := map[*ssa.Function]bool{}
+	for _, f := range regionFuncs(p, up) {
+		allowed[f] = true
+	}
+	for _, f := range regionFuncs(p, ap) {
+		allowed[f] = true
+	}
+	// the reverse RPC service (agent.Service: what the pool may instruct a host to do) is the other legitimate entry
+	if svc := p.Iface("agent", "Service"); svc != nil {
+		if ag := p.Named("agent", "Agent"); ag != nil {
+			it := svc.Underlying().(*types.Interface)
+			for i := 0; i < it.NumMethods(); i++ {
+				if m := p.MethodOf(ag, it.Method(i).Name()); m != nil {
+					allowed[m] = true
+				}
+			}
+		}
+	}
+	for _, fn := range p.Repo {
+		if p.IsTestFunc(fn) || allowed[fn] || fn.Pkg == nil || !strings.HasSuffix(fn.Pkg.Pkg.Path(), "/agent") {
+			continue
+		}
+		direct := false
+		for _, c := range an.Calls(fn, false) {
+			if isEthMutator(an.CallObj(c)) {
+				direct = true
+			}
+		}
+		if !direct {
+			continue
+		}
+		for _, site := range p.StaticSites(fn) {
+			if !p.IsTestFunc(site.Parent()) {
+				bad = append(bad, an.FuncName(fn)+" changes the node's peers and is called from "+an.FuncName(site.Parent())+" ("+p.Pos(site.Pos())+"), outside the keep-alive round")
+			}
+		}
+		if p.IsAddressTaken(fn) {
+			bad = append(bad, an.FuncName(fn)+" changes the node's peers and is used as a value outside the keep-alive round")
+		}
+	}
+	r.Check(len(bad) == 0, "after-update", name, updCall.Pos(), "node mutators only past a successful pool update", "%s", strings.Join(dedup(bad), "; "))
 
 	// ---- pairwise
 	bad = nil
@@ -226,7 +326,9 @@ func runC18(p *an.Prog, r *an.Run, tier string) {
 			bad = append(bad, "unrecognised strict append")
 		} else {
 			d := p.DerivesIn(up, 3, els[0])
-			if d.CallTo(func(f *types.Func) bool { return f.Name() == "Peers" && an.RecvNamed(f) != nil && an.RecvNamed(f).Obj().Name() == "EthNode" }) == nil {
+			if d.CallTo(func(f *types.Func) bool {
+				return f.Name() == "Peers" && an.RecvNamed(f) != nil && an.RecvNamed(f).Obj().Name() == "EthNode"
+			}) == nil {
 				bad = append(bad, "strict mode does not build the invalid list from the node's local peers")
 			}
 		}
@@ -320,7 +422,76 @@ func runC18(p *an.Prog, r *an.Run, tier string) {
 	} else {
 		bad = append(bad, "ethnode.NodeURI.RemoteHost not found")
 	}
+	// ... and on the local side's URI carrying the address the node is actually connected to (Network.RemoteAddress),
+	// not an address the peer advertises about itself
+	if eu := p.Method("ethnode", "PeerInfo", "EnodeURI"); eu != nil {
+		r.Analysed(an.FuncName(eu))
+		an.AllInstrs(eu, func(in ssa.Instruction) {
+			ret, ok := in.(*ssa.Return)
+			if !ok || len(ret.Results) == 0 {
+				return
+			}
+			d := p.Derives(1, an.RetResults(ret)[0])
+			if !d.HasFieldNamed("", "RemoteAddress") {
+				bad = append(bad, "PeerInfo.EnodeURI can return a URI that does not carry the connection's remote address ("+p.Pos(ret.Pos())+"): strict mode would compare an address the peer advertises, not the one it is connected from")
+			}
+		})
+	} else {
+		bad = append(bad, "ethnode.PeerInfo.EnodeURI not found")
+	}
 	r.Check(len(bad) == 0, "invalid-list", name, up.Pos(), "pool's list untouched unless strict; strict: local peers minus (active id with equal host)", "%s", strings.Join(dedup(bad), "; "))
+
+	// ---- fresh-reply: what the agent acts on is this round's reply only. The client stub decodes each reply into a
+	// fresh value; a reused target keeps lists the pool omitted this time (encoding/json leaves absent keys alone)
+	if rp := p.Named("pool", "RemotePool"); rp != nil {
+		nStub := 0
+		for _, mname := range []string{"Update", "Connect", "Peer", "Host", "Client"} {
+			m := p.MethodOf(rp, mname)
+			if m == nil {
+				continue
+			}
+			r.Analysed(an.FuncName(m))
+			var fb []string
+			for _, c := range an.Calls(m, false) {
+				f := an.CallObj(c)
+				if f == nil || f.Name() != "Call" || an.RecvNamed(f) == nil || an.RecvNamed(f).Obj().Pkg() == nil || !strings.HasSuffix(an.RecvNamed(f).Obj().Pkg().Path(), "jsonrpc2") {
+					continue
+				}
+				a := methodArgs(c)
+				if len(a) < 2 {
+					continue
+				}
+				v := a[1]
+				if cst, ok := v.(*ssa.Const); ok && cst.IsNil() {
+					continue
+				}
+				nStub++
+				if mi, ok := v.(*ssa.MakeInterface); ok {
+					v = mi.X
+				}
+				root, _ := an.RootPath(v)
+				al, ok := root.(*ssa.Alloc)
+				if !ok || al.Parent() != m {
+					fb = append(fb, "the reply of "+mname+" is decoded into a value that outlives the call ("+p.Pos(c.Pos())+"): lists omitted by a later reply keep their earlier contents and the agent acts on them again")
+					continue
+				}
+				// the fresh target is not pre-filled from longer-lived state
+				for _, ref := range *al.Referrers() {
+					if st, ok := ref.(*ssa.Store); ok && st.Addr == ssa.Value(al) {
+						if _, isConst := st.Val.(*ssa.Const); !isConst {
+							if p.Derives(0, st.Val).HasParam(m.Params[0]) {
+								fb = append(fb, "the decode target of "+mname+" is initialised from the stub's own state ("+p.Pos(st.Pos())+")")
+							}
+						}
+					}
+				}
+			}
+			r.Check(len(fb) == 0, "fresh-reply", an.FuncName(m), m.Pos(), "each reply is decoded into a fresh value", "%s", strings.Join(dedup(fb), "; "))
+		}
+		r.Floor("client-stub-decodes", nStub, 3)
+	} else {
+		r.Undec("fresh-reply", "pool.RemotePool", token.NoPos, "pool.RemotePool not found")
+	}
 
 	// ---- shortfall
 	bad = nil
